@@ -440,6 +440,48 @@ def stability_check(unit, seeds=(11, 23, 47)):
     return {"unit": unit, "runs": out, "stable": all(o["errors"] == 0 for o in out) and len(set(o["verified"] for o in out)) == 1}
 
 
+
+# ---------------------------------------------------------------------------------------------
+# Canaries (thorough tier): one deliberately broken body per unit, on a scratch copy of the sources, must make the
+# pipeline report the named obligation.  Guards against a pipeline that passes because it no longer looks (stale
+# extractor, lost splice, swallowed diagnostics).  A canary whose source text is no longer there is skipped.
+CANARIES = {
+    "u1": ("core/src/server.rs", "&& parent_version_id != client.latest_version_id", "&& parent_version_id == client.latest_version_id", "av.accept_iff"),
+    "u2": ("core/src/inmemory.rs", "client.latest_version_id = version_id;", "client.latest_version_id = parent_version_id;", "InnerTxn@StorageTxn::add_version"),
+    "u3": ("server/src/api/add_version.rs", "let mut rb = HttpResponse::Conflict();", "let mut rb = HttpResponse::Ok();", "enc.av"),
+    "u4": ("server/src/bin/taskchampion-sync-server.rs", "snapshot_days: server_args.snapshot_days,", "snapshot_days: 14,", "wire.server"),
+    "u5": ("sqlite/src/lib.rs", ".map_err(|_| rusqlite::types::FromSqlError::InvalidType)?;", ".unwrap_or(Uuid::nil());", "enc.id.read"),
+}
+
+
+def canary_check(unit):
+    import shutil, tempfile
+    if unit not in CANARIES:
+        return {"unit": unit, "status": "none defined"}
+    f, old, new, expect = CANARIES[unit]
+    src = os.path.join(vrun.REPO, f)
+    try:
+        text = open(src).read()
+    except OSError:
+        return {"unit": unit, "status": "skipped (source file missing)"}
+    if text.count(old) != 1:
+        return {"unit": unit, "status": "skipped (the text the canary edits is not in the current tree)"}
+    base = "/dev/shm" if os.path.isdir("/dev/shm") else None
+    d = tempfile.mkdtemp(prefix="tcss-canary-", dir=base)
+    try:
+        for sub in ("core/src", "server/src", "sqlite/src"):
+            shutil.copytree(os.path.join(vrun.REPO, sub), os.path.join(d, sub))
+        open(os.path.join(d, f), "w").write(text.replace(old, new))
+        env = dict(os.environ, VERIF_REPO=d, VERIF_GEN=os.path.join(d, "gen"))
+        env.pop("TCSS_STUB", None)
+        p = subprocess.run([sys.executable, os.path.join(VERIF, "lib", "vrun.py"), unit], capture_output=True, text=True, env=env, timeout=900)
+        hit = [l for l in p.stdout.splitlines() if l.startswith("- ") and ("clause=" + expect in l or ("fn=" in l and expect in l))]
+        return {"unit": unit, "edit": "%s: `%s` -> `%s`" % (f, old, new), "expected_obligation": expect, "status": "reported" if hit else "NOT REPORTED",
+                "output": (hit[0] if hit else p.stdout[-400:])[:400]}
+    finally:
+        shutil.rmtree(d, ignore_errors=True)
+
+
 # ---------------------------------------------------------------------------------------------
 def load_known():
     p = os.path.join(VERIF, "known_findings.json")
